@@ -46,6 +46,9 @@ type QueueScenario struct {
 	// ListenerLag: the store's informer listener runs as its own transition (later than the cache
 	// update and the queue controller's listener); one resync round happens before quiescence.
 	ListenerLag bool `json:"listenerLag,omitempty"`
+	// ColdStart: after a restart the Job and JobConfig informers list in either order, handlers
+	// run against whatever the other cache holds by then; the store recovers once both have listed.
+	ColdStart bool `json:"coldStart,omitempty"`
 }
 
 type queueMem struct {
@@ -125,6 +128,11 @@ func newQueueWorld(scn QueueScenario) *queueWorld {
 	b := mc.NewBase(cfgs, true)
 	w.Base = b
 	b.Budget = scn.Budget
+	if scn.ColdStart {
+		b.ColdStart = true
+		b.ColdResources = []string{sim.JobConfigs, sim.Jobs}
+		b.ResyncMode = true // a dropped initial notification is only repaired by the periodic resync
+	}
 	b.Horizon = time.Duration(scn.Horizon) * time.Second
 	b.API.OnWrite = w.onWrite
 	if _, err := b.API.Create("env", sim.JobConfigs, newJobConfig("jc1", execution.ConcurrencyPolicyForbid, scn.MaxConcurrency)); err != nil {
@@ -191,8 +199,13 @@ func (w *queueWorld) build(b *mc.Base) {
 	if err != nil {
 		panic(err)
 	}
-	if err := store.Recover(context.Background()); err != nil {
-		panic(err)
+	recoverStore := func() {
+		if err := store.Recover(context.Background()); err != nil {
+			panic(err)
+		}
+	}
+	if !b.ColdStart {
+		recoverStore()
 	}
 	b.Ctx.Stores().Register(store)
 	w.store = store
@@ -210,6 +223,10 @@ func (w *queueWorld) build(b *mc.Base) {
 	conc := &configv1alpha1.Concurrency{Workers: 1}
 	b.SetWorker("jcq", reconciler.NewController(jobqueuecontroller.NewPerConfigReconciler(ctx, conc, control), jcq))
 	b.SetWorker("indq", reconciler.NewController(jobqueuecontroller.NewIndependentReconciler(ctx, conc, control), indq))
+	if b.ColdStart {
+		// the controller manager recovers the stores after the caches have synced
+		b.WhenSynced(recoverStore)
+	}
 }
 
 // ---- environment ----
@@ -537,8 +554,8 @@ func (w *queueWorld) onWrite(wr sim.Write) {
 
 func (w *queueWorld) checkState(quiescent bool) {
 	jc := w.jc()
-	if jc == nil {
-		return
+	if jc == nil || len(w.Unsynced) > 0 {
+		return // nothing is judged while the restarted process is still listing
 	}
 	uid := string(jc.UID)
 	w.Count("C05.counter-invariant")
